@@ -2,7 +2,8 @@
    deterministic pass function (Section variable): what the loop does with the errors a pass raised and with the set of
    undefined symbols.  The loop's conditions are Gen.PassLoopConds (regenerated from the Rust source on every run).
    One pass = emit_tokens(main file) + after_pass; it returns the new context, the new `ctx.undefined` set and the
-   errors (the empty list = Ok(())).  (Termination / the general pass-loop model is C06's.) *)
+   errors (the empty list = Ok(())); since /repo d187598 the errors of after_pass join the pass's errors
+   (`errors.extend(e)`) instead of aborting -- both are `errors` of the pass here.  (Termination / the general pass-loop model is C06's.) *)
 From Coq Require Import List Bool ZArith.
 Import ListNotations.
 From Mos Require Import Gen.PassLoopConds.
